@@ -223,7 +223,7 @@ func TestEnumAboveBuffer(t *testing.T) {
 					}
 				}
 			} else {
-				stride := size / 40
+				stride := size / 24
 				for i, k := range keyOffsets(base, stride) {
 					r := i + wi*5 + zi*3
 					mk(k, buffered[r%3], writeKinds[r%3], (r/3)%2 == 0)
@@ -258,7 +258,7 @@ func TestEnumAboveBuffer(t *testing.T) {
 					}
 				}
 			} else {
-				for i, k := range keyOffsets(base, max(1, size/12)) {
+				for i, k := range keyOffsets(base, max(1, size/8)) {
 					r := i + wi*5 + zi*3
 					mk(k, buffered[r%3], writeKinds[r%3], (r/3)%2 == 0)
 					mk(k, arrivals4[(r+1)%5], writeKinds[(r+1)%3], (r/3)%2 == 1)
